@@ -366,3 +366,40 @@ Theorem C02_sizedb_sound :
                                         (exposure root alloc compact cut_heap m) a)) n p p.
 Proof. exact sizedb_sound. Qed.
 Print Assumptions C02_sizedb_sound.
+
+(** ** the run-time checker and the model (Proofs/SizedbItems.v, Proofs/SizedbEmitted.v).
+    Every by-value edge between generated items is an edge of the graph [sizedb] explores on the
+    tree [pmod_of_items s m], whatever the exposure table: so when the checker accepts that tree
+    the items have no by-value cycle.  [ir_closed] / [items_plain]: as in [C02_closedb_of_ir];
+    [compact_seen root alloc compact c]: the wrapper path [c] of a nested [Compact<..>] is a plain
+    path whose names are the compact head the checker is told, is not one of the heap heads under
+    the alloc crate and does not start with the root ident. *)
+From V Require Import Proofs.SizedbItems Proofs.SizedbEmitted.
+Theorem C02_sizedb_items_acyclic :
+  forall s m alloc compact cut_heap,
+  ir_closed s m -> items_plain s m = true -> s_root s <> ":"%string ->
+  (forall p id ir, In (p, (id, ir)) m ->
+   forall f, In f (kind_fields (ti_kind ir)) ->
+   forall i c, In (TCompact i false c) (subpaths (fi_path f)) ->
+   compact_seen (s_root s) alloc compact c) ->
+  sizedb (s_root s) alloc compact cut_heap (pmod_of_items s m) = true ->
+  forall n p, ~ walk (item_edge s m) n p p.
+Proof. exact sizedb_items_acyclic. Qed.
+Print Assumptions C02_sizedb_items_acyclic.
+
+(** the whole chain, under the hypotheses of [C02_closedb_emitted] plus [compact_wrapper_seen s]
+    (the configured compact wrapper path is [compact_seen] with the arguments the harness passes:
+    [sized_alloc s] = names of the alloc path, [sized_compact s] = names of the compact path): when
+    the checker accepts the parse of the emitted tokens, the generated items have no by-value
+    cycle and the registry condition holds.  The converse fails: [sz_instantiation_gap]. *)
+Theorem C02_sizedb_emitted_acyclic :
+  forall r s teq m toks,
+  root_fresh s -> starts_with "_" (s_root s) = false -> wrappers_fresh s ->
+  Shape.skeleton_consistent r s ->
+  generate r s teq = Ok m -> emit_module s m = Ok toks -> items_plain s m = true ->
+  keys_prefix_free m -> compact_wrapper_seen s ->
+  exists pm, parse_module toks = Some pm /\
+    (sizedb (s_root s) (sized_alloc s) (sized_compact s) true pm = true ->
+     (forall n p, ~ walk (item_edge s m) n p p) /\ by_value_acyclicb r s = true).
+Proof. exact sizedb_emitted_acyclic. Qed.
+Print Assumptions C02_sizedb_emitted_acyclic.
